@@ -19,7 +19,8 @@ DIRS = ["SHUTTER_STOP", "SHUTTER_UP", "SHUTTER_DOWN"]
 NAME_CHARS = ["abcXYZ 09_", "אבגדה ", "éüñß", "😀🚀", "aé😀א",
               "e\u0301a\u0308\u2126\u212b\u1100\u1161\ufb01",        # well-formed UTF-8 that is not in NFC / NFKC form: the name is the device's, untouched
               "\u200e\u00a0\t~\x7f\u3000",                                # marks, no-break and ideographic spaces, controls
-              "\ufeffab\ufeff"]                                              # a byte order mark is a character of the name like any other
+              "\ufeffab\ufeff",                                             # a byte order mark is a character of the name like any other
+              "ab\0c \0"]                                                   # a zero byte INSIDE the name (only the trailing padding is stripped)
 
 
 def show(dev):
@@ -192,6 +193,7 @@ def run(tier, rnd, out):
     # nobody but the bridge holds the callback's owner (shared with C07), and a second bridge object is started on the port of a running one
     from props import c07
     c07.run_unreferenced(out, rnd, 4 if tier == "quick" else 40)
+    c07.run_with_a_port_taken(out, rnd, 5 if tier == "quick" else 40)          # ... and another program holds one of the configured ports at start (also C07's)
     cs = [mk_case(rnd, rand_desc(rnd, ty)) for ty in TYPES for _ in range(2)]; enc = encode(cs)
     async def two():
         port = world.free_udp_ports(1)[0]; a = []; b = []; marks = set()
